@@ -7,7 +7,7 @@ for d in seeded/*/; do
   python3 tools/seedrun.py $id $prop | tr '|' '\n' | grep -v KNOWN-FINDING | tr '\n' ' '
   echo
 done
-for c in f603aed:C12 a941b5e:C02 ee3a777:C04 59c28ed:C07 420d210:C07 5fb1a66:C04 826d46c:C13 a3e4a5f:C09 8d09158:C17 1297a7e:C08 fb27c51:C04 3cb8410:C02 ac4414b:C13 f6d1a9b:C05 e634965:C04 b0c5f19:C19; do
+for c in f603aed:C12 a941b5e:C02 ee3a777:C04 59c28ed:C07 420d210:C07 5fb1a66:C04 826d46c:C13 a3e4a5f:C09 8d09158:C17 1297a7e:C08 fb27c51:C04 3cb8410:C02 ac4414b:C13 f6d1a9b:C05 e634965:C04 b0c5f19:C19 ea54872:C04; do
   commit=${c%:*}; prop=${c#*:}
   echo "revert $commit:"; python3 tools/seedrun.py revert:$commit $prop | tr '|' '\n' | grep -v KNOWN-FINDING | tr '\n' ' '; echo
 done
